@@ -74,7 +74,7 @@ def main(argv):
             cmd = [PY, '/verif/run_check.py', c, tier]
             if seeds:
                 cmd += ['--seeds', seeds]
-            env2 = dict(os.environ, GLOM_SRC=w, PYTHONHASHSEED='0', VERIF_OUT=d)
+            env2 = dict(os.environ, GLOM_SRC=w, PYTHONHASHSEED='0', VERIF_OUT=d, GLOMSIM_SHRINK_S=os.environ.get('GLOMSIM_SHRINK_S', '150'))
             t0 = time.time()
             p = sh(cmd, env=env2, cwd='/verif', timeout=3600)
             lines = [l for l in p.stdout.splitlines() if l.startswith(('VIOLATION', '  clause', 'KNOWN', '[', 'HARNESS'))]
